@@ -7,7 +7,7 @@ META = {
     "engine": "Determinism",
     "technique": "TLA+ statement of determinism as an invariant over a build history (equal key => equal digests), model-checked on an implementation-shaped builder with per-process shared state (the leaky variant must violate it); TLC enumerates all declaration graphs (package-level variables / functions referring to each other) and all sets of <=2/3 out of 16 language features as sources; each is built repeatedly within a process and in three processes that build the sources in different orders by the real code; the concatenated history is validated by a TLC trace spec",
     "level": "exploration",
-    "level_text": "The spec states the property (a history invariant) and TLC evaluates it on every prefix of the real build history; the case space - every declaration graph over 3 (quick) / 4 (thorough, capped sample) variables with <=2 references each and one function, as a Go program and as a template importing a native package with 7 declarations - and every set of at most 2 (quick) / 3 (thorough) of 16 language features whose emission goes through maps, pools or package-level state (multi-value package variables, constants converted to named types, closures capturing parameters, complex arithmetic helpers, same-line functions, imported files with same-line macros, ...) - is enumerated by TLC. The three processes build the sources in ascending, descending and shuffled order, so that state left behind by an earlier build (history dependence) shows as a disagreement between processes. The source of nondeterminism (Go's per-loop randomised map iteration in the checker's dependency analysis and in the emitter) is exercised by repetition (3-4 builds x 3 processes per source), not enumerated, hence 'exploration'.",
+    "level_text": "The spec states the property (a history invariant) and TLC evaluates it on every prefix of the real build history; the case space - every declaration graph over 3 variables and one function with <=2 (quick) / <=3 (thorough) references each, as a Go program and as a template importing a native package with 7 declarations - and every set of at most 2 (quick) / 3 (thorough) of 16 language features whose emission goes through maps, pools or package-level state (multi-value package variables, constants converted to named types, closures capturing parameters, complex arithmetic helpers, same-line functions, imported files with same-line macros, ...) - is enumerated by TLC. The three processes build the sources in ascending, descending and shuffled order, so that state left behind by an earlier build (history dependence) shows as a disagreement between processes. The source of nondeterminism (Go's per-loop randomised map iteration in the checker's dependency analysis and in the emitter) is exercised by repetition (3-4 builds x 3 processes per source), not enumerated, hence 'exploration'.",
     "level_note": "Trusted: TLC, sha256 digests computed by the driver over Disassemble output / UsedVars / run output or build-error text. A nondeterminism with probability p per build is missed with probability (1-p)^(builds-1) per source.",
     "design_ref": "7/C30",
 }
@@ -16,9 +16,10 @@ FAMS = ["determinism"]
 
 def run(ctx, only_ids=None):
     wd = ctx.stage("mc", FAMS)
-    nv = ctx.pick(3, 4)
+    nv = 3                      # (4 variables: more than a million candidate graphs, beyond TLC's set enumeration)
+    rmax = ctx.pick(2, 3)
     maxfeat = ctx.pick(2, 3)
-    consts = {"NV": nv, "MaxFeat": maxfeat, "Leaky": False}
+    consts = {"NV": nv, "RMax": rmax, "MaxFeat": maxfeat, "Leaky": False}
     rig.write_cfg(wd / "MC_Determinism.cfg", init="MCInit", next_="MCNext", constants=consts, invariants=["Deterministic"])
     r = ctx.tlc(wd, "MC_Determinism", workers=4, timeout=1200, must_pass=True)
     cases = rig.read_ndjson(wd / "cases.ndjson")
@@ -30,7 +31,7 @@ def run(ctx, only_ids=None):
     ctx.cov["nonvacuity_leaky_builder_violates_invariant"] = bool(rl.invariant_violated)
     if not rl.invariant_violated:
         raise Infra("Determinism invariant is vacuous: the leaky builder was accepted")
-    ctx.cov.update(states=r.distinct, transitions=r.generated, graphs=len(cases), feature_programs=len(featcases), bounds=f"NV={nv} MaxFeat={maxfeat}")
+    ctx.cov.update(states=r.distinct, transitions=r.generated, graphs=len(cases), feature_programs=len(featcases), bounds=f"NV={nv} RMax={rmax} MaxFeat={maxfeat}")
     acyclic = [c for c in cases if not c["cyclic"]]
     cyclic = [c for c in cases if c["cyclic"]]
     ctx.cov.update(acyclic_graphs=len(acyclic), cyclic_graphs=len(cyclic))
